@@ -5,6 +5,7 @@ import (
 	"context"
 	"encoding/json"
 	"fmt"
+	"unicode/utf8"
 
 	"github.com/risor-io/risor/errz"
 	"github.com/risor-io/risor/op"
@@ -367,10 +368,12 @@ func (b *ByteSlice) ContainsRune(obj Object) Object {
 	if err != nil {
 		return err
 	}
-	if len(s) != 1 {
+	// One character, which may take more than one byte
+	r, size := utf8.DecodeRuneInString(s)
+	if size == 0 || size != len(s) {
 		return Errorf("byte_slice.contains_rune: argument must be a single character")
 	}
-	return NewBool(bytes.ContainsRune(b.value, rune(s[0])))
+	return NewBool(bytes.ContainsRune(b.value, r))
 }
 
 func (b *ByteSlice) Count(obj Object) Object {
@@ -429,10 +432,12 @@ func (b *ByteSlice) IndexRune(obj Object) Object {
 	if err != nil {
 		return err
 	}
-	if len(s) != 1 {
+	// One character, which may take more than one byte
+	r, size := utf8.DecodeRuneInString(s)
+	if size == 0 || size != len(s) {
 		return Errorf("byte_slice.index_rune: argument must be a single character")
 	}
-	return NewInt(int64(bytes.IndexRune(b.value, rune(s[0]))))
+	return NewInt(int64(bytes.IndexRune(b.value, r)))
 }
 
 func (b *ByteSlice) Repeat(obj Object) Object {
